@@ -3,6 +3,8 @@ import Sbepp.Spec.Observe
 import Sbepp.Spec.Encode
 import Sbepp.Gen.SizeFormula
 import Sbepp.Gen.HeaderFill
+import Sbepp.Spec.Events
+import Sbepp.Rt.Parse
 
 namespace Sbepp.Drive.Wire
 open Sbepp Sbepp.Schema Sbepp.Observe
@@ -108,5 +110,36 @@ def encode (payload : String) : String :=
             s!"expect={SExp.hex r.1} end={r.2}"
           | none => "bad-op bad-value"
     | _, _, _, _ => "bad-op bad-request"
+
+/-- `visit (req (schema ...) (msg NAME) (value (msg (hdr xHEX) (root (lv ...)))))`
+    → `image=<hex> spec=<records> model=<records> end=<n>`: the callbacks of a complete recursing visit.
+    `spec` is computed from the value tree, `model` from the tree reconstructed by walking the image. -/
+def visit (payload : String) : String :=
+  match SExp.parseOne payload with
+  | none => "bad-op"
+  | some req =>
+    match (req.field? "schema").bind (fun l => parseSchema (SExp.list (SExp.atom "schema" :: l))),
+          req.atomField? "msg", req.field? "value" with
+    | some s, some mname, some [v] =>
+      match s.messages.find? (·.name = mname) with
+      | none => "bad-op no-such-message"
+      | some md =>
+        match resolveMessage s md with
+        | .error e => s!"diag {e}"
+        | .ok m =>
+          match (v.atomField? "hdr").bind xhex, (v.field? "root").bind (fun l => l.head?.bind parseLVal) with
+          | some hdr, some root =>
+            let bo := s.byteOrder
+            let L := m.level.erase
+            let image := hdr ++ flattenL bo L root
+            let wblM := match findLeaf m.hdrLeaves "blockLength" with
+              | some l => rd bo image l.off l.size
+              | none => 0
+            let specEv := Spec.Events.eventsL bo s.types "" md.fields md.groups m.level root
+            let parsed := parseL bo image L m.hdrSize wblM
+            let modelEv := Spec.Events.eventsL bo s.types "" md.fields md.groups m.level parsed
+            s!"image={SExp.hex image} spec={";".intercalate specEv} model={";".intercalate modelEv} end={endL bo image L m.hdrSize wblM}"
+          | _, _ => "bad-op bad-value"
+    | _, _, _ => "bad-op bad-request"
 
 end Sbepp.Drive.Wire
